@@ -133,3 +133,15 @@ pub(crate) fn h_find_block_comment_end_5() {
 pub(crate) fn tok_for_harness(text: &str) -> Option<Vec<A2lToken>> {
     tokenize_core(String::from("f"), 0, text).ok()
 }
+
+/// error path with a long text: an untokenizable byte, 8 ASCII bytes, then arbitrary valid UTF-8 (error text is cut at +10)
+pub(crate) fn h_tok_invalid_tail_3() {
+    let mut v: Vec<u8> = Vec::from(&b"$12345678"[..]);
+    for _ in 0..3 { v.push(vrt_any_u8()); }
+    if let Ok(text) = String::from_utf8(v) { tok_core_text(text); }
+}
+pub(crate) fn h_tok_invalid_slash_tail_3() {
+    let mut v: Vec<u8> = Vec::from(&b" /x2345678"[..]);
+    for _ in 0..3 { v.push(vrt_any_u8()); }
+    if let Ok(text) = String::from_utf8(v) { tok_core_text(text); }
+}
